@@ -366,6 +366,12 @@ func (s *Sim) exec(st stepRef) {
 				content = []byte("this is not a capture file\n")
 			case 1:
 				content = nil
+			case 3:
+				// a capture with its file header and no packet record
+				name = fmt.Sprintf("empty%03d.pcap", op.ID)
+				content = []byte{0xd4, 0xc3, 0xb2, 0xa1, 2, 0, 4, 0, 0, 0, 0, 0, 0, 0, 0, 0, 0, 0, 4, 0, 1, 0, 0, 0}
+				os.WriteFile(s.scratch+"/src/"+name, content, 0o644)
+				s.res.Count("fault_empty_capture", 1)
 			default:
 				if len(s.capt.Names) > 0 {
 					b, _ := os.ReadFile(s.scratch + "/src/" + s.capt.Names[0])
@@ -377,7 +383,9 @@ func (s *Sim) exec(st stepRef) {
 			os.WriteFile(s.dirs.Pcap+name, content, 0o644)
 			op.K = "Import"
 			op.Convs = []string{name}
-			s.res.Count("fault_corrupt_capture", 1)
+			if op.V != 3 {
+				s.res.Count("fault_corrupt_capture", 1)
+			}
 		}
 		s.or.beforeAPI(op)
 		wf := s.writeFault("api", 0, op.ID)
